@@ -53,7 +53,8 @@ def classes(s):
 def strings(ctx, n_random):
     out = ['', 'abc']
     out += ATOMS
-    out += [a + b for a in ATOMS[:14] for b in ATOMS[:14]]
+    k = 14 if ctx.thorough else 9          # pairs of the first k atoms (quotes, backslashes, %, _, !)
+    out += [a + b for a in ATOMS[:k] for b in ATOMS[:k]]
     rng = ctx.rng
     for _ in range(n_random):
         out.append(''.join(rng.choice(ATOMS) for _ in range(rng.randint(2, 6))))
@@ -63,7 +64,7 @@ def strings(ctx, n_random):
     return res
 
 
-def run_bools(ctx, exprs, header=HEADER, chunk=600, name='cases'):
+def run_bools(ctx, exprs, header=HEADER, chunk=1500, name='cases'):
     """exprs: Coq bool terms. Returns indexes whose value is not true."""
     chunks = []
     for i in range(0, len(exprs), chunk):
@@ -281,7 +282,7 @@ def correspondence(ctx):
     def disagree(what, inp, impl=None):
         disagreements.append({'what': what, 'input': inp, 'impl': impl})
 
-    strs = strings(ctx, ctx.scale(40, 400))
+    strs = strings(ctx, ctx.scale(25, 400))
 
     # (1) Value.quote_str / str(Value) for all five styles; provider value classes under their own style and all styles
     for style in STYLES:
@@ -296,7 +297,8 @@ def correspondence(ctx):
             if real2 != real: disagree('str(Value) of a str differs from quote_str', [style, s], real2)
     for prov in PROVIDERS:
         vc = value_class(prov)
-        for style in STYLES:
+        own = {'sqlite': 'qmark', 'postgres': 'pyformat', 'mysql': 'format', 'oracle': 'named'}[prov]
+        for style in (STYLES if ctx.thorough else sorted({own, 'format', 'qmark'})):
             for s in strs[::3]:
                 try: real = str(vc(style, s))
                 except Exception as e:
@@ -335,7 +337,7 @@ def correspondence(ctx):
             add('quote_name_seq', 'str_eqb (quote_name_seq %d %s) %s' % (ord(q), clist(seq, cstr), cstr(real)), [prov, seq], real, any(q in n for n in seq))
 
     # (3) parameter numbering, layout, adapters: real SQLBuilder, five styles, random trees with repeated keys
-    ntrees = ctx.scale(60, 600)
+    ntrees = ctx.scale(35, 600)
     for style in STYLES:
         prov = base_provider(style)
         rng = ctx.rng
@@ -370,7 +372,7 @@ def correspondence(ctx):
         add('mod_symbol', 'str_eqb (%s ++ mod_symbol %s ++ %s) %s' % (cstr('("A"'), CSTYLE[style], cstr('"B")'), cstr(b.sql)), [style], b.sql, True)
 
     # (4) StringMixin._like on the four providers: constant and parameter branch
-    likes = [s for s in strs if s and '\x00' not in s][:ctx.scale(45, 200)]
+    likes = [s for s in strs if s and '\x00' not in s][:ctx.scale(30, 200)]
     for prov in PROVIDERS:
         for op in ('contains', 'startswith', 'endswith'):
             for v in likes[::(1 if prov == 'sqlite' else 3)]:
@@ -394,7 +396,7 @@ def correspondence(ctx):
     con.execute('PRAGMA case_sensitive_like = true')
     #   (5a) quoted-literal lexer: every text ' + m + ' with m over a small alphabet, SQLite's reading vs lex_std
     alpha = "'a\\%"
-    for n in range(0, ctx.scale(5, 6) + 1):
+    for n in range(0, ctx.scale(4, 6) + 1):
         for tup in itertools.product(alpha, repeat=n):
             t = "'" + ''.join(tup) + "'"
             try: got = con.execute('SELECT ' + t).fetchone()[0]
@@ -413,7 +415,9 @@ def correspondence(ctx):
             add('sqlite_identifier', 'opt_eqb str_eqb (lex_ident 34 %s) %s' % (cstr(t), 'None' if got is None else '(Some %s)' % cstr(got)), t, got, '""' in t)
     #   (5b) LIKE with and without ESCAPE: all patterns / subjects over small alphabets
     subjects = [''.join(t) for n in range(0, 4) for t in itertools.product('aA!%_', repeat=n)]
-    pats = [''.join(t) for n in range(0, ctx.scale(4, 5) + 1) for t in itertools.product('a%_!', repeat=n)]
+    if not ctx.thorough: subjects = [x for i, x in enumerate(subjects) if len(x) <= 2 or i % 5 == 0]      # all up to length 2, every 5th of length 3
+    pats = [''.join(t) for n in range(0, ctx.scale(3, 5) + 1) for t in itertools.product('a%_!', repeat=n)]
+    if not ctx.thorough: pats += [''.join(t) for i, t in enumerate(itertools.product('a%_!', repeat=4)) if i % 4 == 1]
     hdr = HEADER + 'Definition subjects : list str := %s.\n' % clist(subjects, cstr)
     like_exprs, like_meta = [], []
     for esc in ('!', None):
@@ -431,7 +435,8 @@ def correspondence(ctx):
         add('sqlite_replace', 'str_eqb (fst (like_param_startswith %s)) %s' % (cstr(v), cstr(got + '%')), v, got, any(c in v for c in '%_!'))
     #   (5d) %-formatting of format / pyformat drivers = CPython's % operator
     for n in range(0, ctx.scale(4, 6) + 1):
-        for tup in itertools.product('%s(p)a', repeat=n):
+        for k4, tup in enumerate(itertools.product('%s(p)a', repeat=n)):
+            if not ctx.thorough and n == 4 and k4 % 3: continue       # quick tier: all texts up to length 3, every 3rd of length 4
             t = ''.join(tup)
             toks = py_fmt_scan(t)
             kinds = set(x[0] for x in toks) if toks is not None else set()
@@ -457,7 +462,7 @@ def correspondence(ctx):
                 coq = '(Some %s)' % clist(toks, lambda x: '(FChar %d)' % ord(x[1]) if x[0] == 'c' else ('FPos' if x[0] == 'pos' else '(FNamed %s)' % cstr(x[1])))
             add('fmt_scan', 'opt_eqb (list_eqb ftok_eqb) (fmt_scan %s) %s' % (cstr(t), coq), t, repr(toks), '%' in t)
     #   (5e) MySQL literal mirror vs Coq lex_mysql (documentation model on both sides; keeps the replay mirror honest)
-    for s in strs[:120]:
+    for s in strs[:ctx.scale(80, 300)]:
         t = "'" + s.replace("'", "''") + "'"
         got = py_lex_mysql(t)
         add('lex_mysql_mirror', 'opt_eqb str_eqb (lex_mysql %s) %s' % (cstr(t), 'None' if got is None else '(Some %s)' % cstr(got)), t, got, '\\' in s)
